@@ -4,8 +4,11 @@
 #include "vh.h"
 #include "doc.h"
 /* struct SObs: f0 ok, f1 is_str, f2 is_i32, f3 is_f64, f4 as<i32>, f5 as<u64>, f6 as<float>, f7 as<double> */
-float CUT_MF_F(float m, uint32_t e) { return m + (float)(int32_t)e; }      /* deterministic stand-in: both twins see the same scaling */
-double CUT_MF_D(double m, uint32_t e) { return m + (double)(int32_t)e; }
+/* deterministic stand-ins for the power-of-ten scaling: both twins see the same function of (mantissa, exponent); the
+   double-precision one returns a value that no float can hold, so that a twin silently routed through single precision
+   is observable */
+float CUT_MF_F(float m, uint32_t e) { return m + (float)(int32_t)e; }
+double CUT_MF_D(double m, uint32_t e) { return m + (double)(int32_t)e + 1e-9; }
 #ifndef MID
 #define MID '.'
 #endif
@@ -17,15 +20,22 @@ static int same_obs(struct S_SObs* a, struct S_SObs* b) {
 }
 void h_str_twins(void) {
   uint8_t d1 = vin_u8(), d2 = vin_u8(); VASSUME(d1 >= '0' && d1 <= '9' && d2 >= '0' && d2 <= '9');
+#ifdef EXP2   /* D e D D : exponents 00..99, the larger ones take the double-precision path */
+  uint8_t d3 = vin_u8(); VASSUME(d3 >= '0' && d3 <= '9');
+  uint8_t lit[5] = {d1, 'e', d2, d3, 0}; uint8_t buf[5] = {d1, 'e', d2, d3, 0};
+#define SLEN 4
+#else
   uint8_t lit[4] = {d1, MID, d2, 0}; uint8_t buf[4] = {d1, MID, d2, 0};
+#define SLEN 3
+#endif
   struct S_SObs a, b; memset(&a, 0, sizeof a); memset(&b, 0, sizeof b);
   w_strs_linked(lit, &a);
 #if TWIN == 0
   w_strs_copied(buf, &b);
 #elif TWIN == 1
-  w_strs_sized(buf, 3, 0, &b);
+  w_strs_sized(buf, SLEN, 0, &b);
 #else
-  w_strs_sized(buf, 3, 1, &b);
+  w_strs_sized(buf, SLEN, 1, &b);
 #endif
   VOBS(a.f4); VOBS(b.f4); VOBS(vbits64(a.f7)); VOBS(vbits64(b.f7));
   VASSERT((a.f0 & 1) && (b.f0 & 1), "set succeeds for every source kind");
